@@ -60,6 +60,12 @@ CHECKS = {
     'C11': dict(category='model_checking', engine='Container', technique='TLA+ Container.tla action property C11_Indep / C11_Frame (every action changes only its target object): TLC over copy/sibling histories; replay with full projection of all objects and class-level lists plus an identity scan for shared mutable objects',
                 text='The same machine with copies (copy(), copy.copy, deepcopy), fresh siblings and class-level lists as objects; TLC checks that every action leaves all other objects and the class lists unchanged, with the copy taken at every point of a history and mutations (values, added variables/attributes, lags/leads, list mutations, solves) applied to either side; the harness replays on containers, plain/Alias/Tracer/both-mixin models and linkers with nested submodels, projects all objects after every step and walks __dict__ recursively to assert that no two objects share a list, dict, Trace or array memory.',
                 note='Trusted: as C09; the span object passed by the caller is stored by reference and is out of scope (in-place mutation of a span is not an operation).', ref='6.4, 7 (C11), 8'),
+    'C10': dict(category='model_checking', engine='LabelAccess', technique='TLA+ Span.tla (Pos, SliceSet and the transcribed lookup routes) + LabelAccess.tla write/read machine: TLC exhaustive over spans, labels, label slices and two-write histories; replayed on ten concrete span types with read-back through every access path',
+                text='Span.tla gives the declarative reading of label and label-slice addressing and transcribes the three lookup routes (get_loc / index / fallback, slice-valued lookups, conditional inclusive stop); LabelAccess.tla writes through label, label slice, position, attribute and name key and reads everything back; TLC checks C10_Exact/Absent/ReadBack/ReadsExact/LocateIsPos on all spans up to the bound with every label (incl. absent and coarse ones) and every (start, stop, step); each behaviour is replayed on VectorContainer and BaseModel over range, list of str, mixed hashables, NumPy int/str arrays, pandas Index, annual/quarterly PeriodIndex and DatetimeIndex in object and string spelling.',
+                note='Trusted: TLC; label-id to concrete-label maps; positive steps only; labels equal under == are not generated.', ref='6.4, 7 (C10), 8'),
+    'C12': dict(category='model_checking', engine='Reindex', technique='TLA+ Reindex.tla: reindex machine and C12 invariants over all (old, new) span pairs x dtype kinds x fill lattice x strict, exhaustive in TLC; expected result tables replayed on containers, partly solved models and the pandas mixin over ten span types',
+                text='Reindex.tla follows BaseModel.reindex / VectorContainer.reindex step by step and states C12_Reindex/Strict/KindFree/OrigUnchanged; TLC enumerates every pair of spans up to the bound (overlapping, disjoint, permuted, shrunk, extended, repeated labels in the new span) with float/int/bool/str variables and every combination of fill_value, per-variable fills and strict; each emitted expected table is compared by label with the real result on VectorContainer, a partly solved BaseModel and a PandasIndexFeaturesMixin model with default arguments, checking dtype, order, attributes, lags/leads, the unchanged original and the absence of shared memory.',
+                note='Trusted: TLC; pandas/NumPy coercion of fill values is observed, not modelled; old spans have distinct labels.', ref='6.4, 7 (C12), 8'),
 }
 
 NOT_YET = {}
